@@ -205,7 +205,10 @@ def _is_submission_expr(e, sub_local, f):
     """expression denotes (a reborrow of) the submission parameter"""
     while e[0] in ('ref',):
         e = e[1]
-    if e[0] == 'proj' and all(p == '*' for p in e[2]):
+    # (a reborrow of) the submission, or of its only field, the io_uring_sqe (`let sqe = &mut submission.0`)
+    if e[0] == 'proj' and all(p in ('*', '.0') for p in e[2]):
+        e = e[1]
+    while e[0] in ('ref',):
         e = e[1]
     return e[0] == 'arg' and e[1] == sub_local
 
